@@ -71,11 +71,6 @@ Qed.
 Section Lib.
 Variable P : id -> Prop.
 Variable b : N.
-Variable T : tables.
-Variable tab_el tab_en : nametab.
-Variable check_fn : N -> list N -> res bool.
-Variable LATEST : N.
-
 Notation GoodN := (GoodN P b).
 Notation GoodM := (GoodM P).
 Notation Sealed := (Sealed P b).
@@ -193,6 +188,11 @@ Proof.
 Qed.
 
 (* ------------------------------------------------------------------ read-only functions that return ids *)
+Variable T : tables.
+Variable tab_el tab_en : nametab.
+Variable check_fn : N -> list N -> res bool.
+Variable LATEST : N.
+
 Lemma irpq_ro_post {A} (Q : A -> Prop) (c : W A) :
   ro c -> (forall w a, Sealed w -> c w = Val (OK a, w) -> Q a) -> irpq Q c.
 Proof.
